@@ -80,6 +80,8 @@ async fn asynchronous(worterbuch: &CloneableWbApi, config: &Config) -> Persisten
 
     // only now that the inactive slot holds a complete snapshot does it become the active one
     flip_toggle(config).await?;
+    #[cfg(feature = "verif")]
+    crate::verif::crash_point("flipped")?;
 
     File::create(&last_persisted).await?;
 
@@ -123,6 +125,8 @@ pub(crate) async fn synchronous(
 
     // only now that the inactive slot holds a complete snapshot does it become the active one
     flip_toggle(config).await?;
+    #[cfg(feature = "verif")]
+    crate::verif::crash_point("flipped")?;
 
     File::create(&last_persisted).await?;
 
